@@ -553,6 +553,7 @@ def run(rep, ctx):
         both_directions_alike(rep, M, "R04.3")
         image_labels_add(rep, M, "R04.3")
         span_through_minus_neighbour(rep, M, "R04.3")
+        correction_orientation(rep, M, "R04.3")
     rep.rule("R04.4", "a layered cell found as 3D keeps its two thick vectors, gets the normal as third, is periodic in (a, b) and is minimised along the last axis")
     with rep.guard("R04.4"):
         r04_4(rep, M, "R04.4")
@@ -957,3 +958,82 @@ def merged_region_is_larger(rep, M, rid):
         rep.violation(rid, "_merge_clusters.merge: region of the merged cluster", f"`{norm(reg)}` is the *smaller* of the two regions: Cluster.get_cell() of a merged cluster then "
                       "hands out the prototype cell of the region that usually stems from a surface seed and lacks basis atoms (Ti2O3 instead of TiO2: not a whole number of "
                       "formula units, wrong space group)", M.where(fq, ctor[0]))
+
+
+# ----------------------------------------------------------------------------- orientation of the periodic-image correction
+def correction_orientation(rep, M, rid):
+    """both builders: displacement = positions[neighbour] - positions[node] is completed by (image label of the NEIGHBOUR - image label of the NODE) . cell.
+    Node index and node label are read from the same node tuple (`node[0]`, `node[1]`); neighbour index and neighbour label are assigned side by side in
+    every branch that picks the neighbour. The reversed difference is off by twice a lattice translation for every link across a periodic boundary"""
+    n = 0
+    for fq in (PF + "._find_proto_cell_3d", PF + "._find_proto_cell_2d"):
+        fn = M.func(fq)
+        disp = [s for s in ast.walk(fn) if isinstance(s, ast.Assign) and isinstance(s.value, ast.BinOp) and isinstance(s.value.op, ast.Sub)
+                and all(isinstance(x, ast.Subscript) and isinstance(x.slice, ast.Name) for x in (s.value.left, s.value.right))
+                and norm(s.value.left.value) == norm(s.value.right.value)]
+        prods = [c for c in ast.walk(fn) if (isinstance(c, ast.Call) and (M.ext_name(fq, c.func) or "") in ("numpy.dot", "numpy.matmul") and len(c.args) == 2)
+                 or (isinstance(c, ast.BinOp) and isinstance(c.op, ast.MatMult))]
+        if not disp or not prods:
+            raise AnalysisError(f"{fq.split('.')[-1]}: displacement / correction not recognised")
+        neigh, node = disp[0].value.left.slice.id, disp[0].value.right.slice.id
+        # owner of a label: the index name it is bound together with
+        owner = {}
+        for s in ast.walk(fn):
+            if isinstance(s, ast.Assign) and len(s.targets) == 1 and isinstance(s.targets[0], ast.Name) and isinstance(s.value, ast.Subscript) \
+                    and isinstance(s.value.slice, ast.Constant) and s.value.slice.value == 1:
+                src = norm(s.value.value)
+                for s2 in ast.walk(fn):
+                    if isinstance(s2, ast.Assign) and len(s2.targets) == 1 and isinstance(s2.targets[0], ast.Name) and isinstance(s2.value, ast.Subscript) \
+                            and isinstance(s2.value.slice, ast.Constant) and s2.value.slice.value == 0 and norm(s2.value.value) == src:
+                        owner[s.targets[0].id] = s2.targets[0].id
+        for blk_owner in ast.walk(fn):
+            for f in ("body", "orelse"):
+                blk = getattr(blk_owner, f, None)
+                if not isinstance(blk, list):
+                    continue
+                for a, b in zip(blk, blk[1:]):
+                    if all(isinstance(x, ast.Assign) and len(x.targets) == 1 and isinstance(x.targets[0], ast.Name) and isinstance(x.value, ast.Name) for x in (a, b)):
+                        # `a_final_neighbour = a_add_neighbour` next to `i_factor = i_add_factor`, in either order
+                        for lab, idx in ((b.targets[0].id, a.targets[0].id), (a.targets[0].id, b.targets[0].id)):
+                            if idx in (neigh, node) and lab not in (neigh, node):
+                                owner.setdefault(lab, idx)
+        for pr in prods:
+            args = pr.args if isinstance(pr, ast.Call) else [pr.left, pr.right]
+            fac = next((x for x in args if isinstance(x, (ast.BinOp, ast.UnaryOp))), None)
+            if fac is None:
+                continue
+
+            def lin(e):
+                if isinstance(e, ast.Call) and e.args and (M.ext_name(fq, e.func) or "") in ("numpy.array", "numpy.asarray"):
+                    return lin(e.args[0])
+                if isinstance(e, ast.Name):
+                    return {e.id: 1}
+                if isinstance(e, ast.UnaryOp) and isinstance(e.op, ast.USub):
+                    r = lin(e.operand)
+                    return None if r is None else {k: -v for k, v in r.items()}
+                if isinstance(e, ast.BinOp) and isinstance(e.op, (ast.Add, ast.Sub)):
+                    a, b = lin(e.left), lin(e.right)
+                    if a is None or b is None:
+                        return None
+                    sg = 1 if isinstance(e.op, ast.Add) else -1
+                    r = dict(a)
+                    for k, v in b.items():
+                        r[k] = r.get(k, 0) + sg * v
+                    return r
+                return None
+            lf = lin(fac)
+            if lf is None or len(lf) != 2:
+                raise AnalysisError(f"{fq.split('.')[-1]}: image-label difference `{norm(fac)[:50]}` not recognised")
+            by_owner = {owner.get(k): v for k, v in lf.items()}
+            if set(by_owner) != {neigh, node}:
+                raise AnalysisError(f"{fq.split('.')[-1]}: the labels in `{norm(fac)[:50]}` could not be attributed to `{neigh}` / `{node}` ({owner})")
+            n += 1
+            if by_owner[neigh] == 1 and by_owner[node] == -1:
+                rep.ok(rid, f"{fq.split('.')[-1]}: correction = (label of `{neigh}` - label of `{node}`) . cell, oriented like the displacement")
+            else:
+                rep.violation(rid, f"{fq.split('.')[-1]}: `{norm(fac)[:60]}`", f"the image-label difference is oriented against the displacement `{norm(disp[0].value)}` "
+                              f"(coefficients: label of `{neigh}` {by_owner[neigh]:+d}, label of `{node}` {by_owner[node]:+d}): every link across a periodic boundary is off by twice "
+                              "a lattice translation; in a single material the oversized cells are harmless, at an interface they enclose atoms of the other slab, the cell is "
+                              "rejected and a whole slab is lost", M.where(fq, pr))
+    if n < 2:
+        raise AnalysisError(f"orientation of the periodic-image correction decided at {n} site(s); both builders have one")
